@@ -195,7 +195,8 @@ class _Runner:
         ncpu = os.cpu_count() or 1
         self.nproc = max(2, min(8, ncpu // 2))
         self.pool = ProcessPoolExecutor(self.nproc, mp_context=multiprocessing.get_context("fork"))
-        list(self.pool.map(_warm, range(self.nproc * 2)))  # fork the workers before any thread exists
+        list(self.pool.map(_spawn, range(self.nproc)))  # fork the workers before any thread exists
+        self.warm = [self.pool.submit(_warm, i) for i in range(self.nproc)]  # import while TLC runs
         self.family = None
         self.lock = threading.Lock()
         self.n_expr = 0
@@ -216,6 +217,7 @@ class _Runner:
             kw.setdefault("workdir", ck.work)
             kw.setdefault("coverage", False)
             kw.setdefault("workers", 1)
+            kw["env"] = dict(kw.get("env") or {}, JAVA_TOOL_OPTIONS="-XX:ParallelGCThreads=2")  # shared machine
             return label, _tlc.run(module, cfg, **kw)
 
         with ThreadPoolExecutor(par) as tp:
@@ -225,6 +227,12 @@ class _Runner:
                 ck.states += res.distinct
                 ck.transitions += res.generated
                 ck.tlc_cmds.append(res.cmd)
+                for a, (d, g) in res.coverage.items():
+                    old = ck.cov.get("%s.%s" % (res.module, a), [0, 0])
+                    ck.cov["%s.%s" % (res.module, a)] = [old[0] + d, old[1] + g]
+                if label.startswith("roleA"):
+                    yield label, res
+                    continue
                 if not res.ok:
                     raise Machinery("generator %s failed: %s\n%s" % (label, res.violated, res.tail))
                 if not res.records:
@@ -345,9 +353,15 @@ class _Runner:
                    "expected": "error (overlapping keys)" if r["err"] else _dict_expected(r)})
 
 
-def _warm(i):
-    import accelforge.frontend.spec  # noqa
+def _spawn(i):
+    time.sleep(0.3)  # keeps the worker busy so that the executor forks all of them now
     return os.getpid()
+
+
+def _warm(i):
+    import accelforge
+    import accelforge.frontend.spec  # noqa
+    return os.path.dirname(accelforge.__file__)
 
 
 def run(ck: Check):
@@ -356,9 +370,11 @@ def run(ck: Check):
     ck.rule = (
         "TLC (spec/MC_SetExpr.tla) enumerates expression trees over {name, &, |, -, ^, ~}: every tree of depth <= 2 "
         "over all 15 names for every (workload, Einsum) of a 9-workload family; every tree of depth <= 3 over 4-name "
-        "(quick) / 7-name (thorough) alphabets for (workload, Einsum) pairs selected by VERIF_SEED; random trees of "
+        "alphabets for 2 (workload, Einsum) pairs (quick) / 7-name alphabets for 3 pairs x 2 alphabets (thorough), pairs "
+        "selected by VERIF_SEED; random trees of "
         "depth <= 4 and <= 5 over random workloads of 1-4 Einsums (-simulate). Dictionaries: all 0-2 key dictionaries "
-        "over 18 keys with Other absent / in every position, and random 0-3 key dictionaries. Expected set / "
+        "over <= 18 keys with Other absent / in every position (2 pairs quick, all 20 thorough), and random 0-3 key "
+        "dictionaries. Expected set / "
         "assignment / 'error' = SetExpr!Eval, Assign, Overlap evaluated by TLC. Each string is evaluated in its fully "
         "parenthesised and its minimally parenthesised (Python precedence) form. Non-trivial expression = at least one "
         "operator and a result that is a non-empty proper subset of the Einsum's tensors, distinct by (workload, "
@@ -382,28 +398,50 @@ def run(ck: Check):
         npairs = 20
         p1 = (3 * seed + 1) % npairs + 1
         p2 = (3 * seed + 8) % npairs + 1
-        jobs = [("d2", "MC_SetExpr", "MC_SetExpr_d2.cfg", {"timeout": 1500})]
+        jobs = []
         if not thorough:
-            d3 = [(p1, 2), (p2, 3)]
-            jobs.append(("dict:pairs%d,%d" % (p1, p2), "MC_SetExpr", "MC_SetExpr_dictsel.cfg",
+            # one TLC run: depth <= 2 for the family, depth <= 3 for two pairs, dictionaries of the two pairs
+            jobs.append(("quick:pairs%d,%d" % (p1, p2), "MC_SetExpr", "MC_SetExpr_quick.cfg",
                          {"env": {"C22_PAIR": p1, "C22_PAIR2": p2}, "timeout": 1500}))
-            nrand = 2500
+            nrand = 1500
         else:
-            d3 = [((3 * seed + 1 + 5 * i) % npairs + 1, a) for i in range(4) for a in (0, 1)]
+            jobs.append(("d2", "MC_SetExpr", "MC_SetExpr_d2.cfg", {"timeout": 1500}))
+            for p, a in [((3 * seed + 1 + 5 * i) % npairs + 1, a) for i in range(3) for a in (0, 1)]:
+                jobs.append(("d3:pair%d:alpha%d" % (p, a), "MC_SetExpr", "MC_SetExpr_d3.cfg",
+                             {"env": {"C22_PAIR": p, "C22_ALPHA": a}, "timeout": 3000}))
             jobs.append(("dict:all", "MC_SetExpr", "MC_SetExpr_dict.cfg", {"timeout": 3000}))
-            nrand = 25000
-        for p, a in d3:
-            jobs.append(("d3:pair%d:alpha%d" % (p, a), "MC_SetExpr", "MC_SetExpr_d3.cfg",
-                         {"env": {"C22_PAIR": p, "C22_ALPHA": a}, "timeout": 3000}))
+            nrand = 8000
         jobs.append(("rand", "MC_SetExpr", "MC_SetExpr_rand.cfg",
                      {"simulate": "num=1", "timeout": 3000, "depth": nrand, "seed": seed * 1000 + 4}))
+        # role A: the dictionary algorithm as a transition system (spec/SetExprOtherAlg.tla)
+        jobs.append(("roleA:other-last", "SetExprOtherAlg", "SetExprOtherAlg_last.cfg",
+                     {"coverage": True, "workers": 2, "timeout": 1500}))
+        if thorough:
+            jobs.append(("roleA:dict-order", "SetExprOtherAlg", "SetExprOtherAlg_dictorder.cfg",
+                         {"coverage": True, "workers": 2, "timeout": 1500}))
         # longest first
         jobs.sort(key=lambda j: 0 if j[0].startswith("d3") else 1)
-        timing = {}
-        for label, res in R.tlc_many(jobs, par=5):
+        timing, roleA = {}, {}
+        for label, res in R.tlc_many(jobs, par=6):
             recs = res.records
             t0 = time.time()
-            if label == "d2" or label.startswith("d3"):
+            if label == "roleA:other-last":
+                if not res.ok:
+                    raise Machinery("role A: evaluating Other last must satisfy Correct, TLC reports %s\n%s"
+                                    % (res.violated, res.tail))
+                for a in ("EvalKey", "EvalOther", "CheckDisjoint"):
+                    if res.coverage.get(a, (0, 0))[1] == 0:
+                        raise Machinery("vacuity: action %s of SetExprOtherAlg was never taken" % a)
+                roleA["other_last"] = "Correct holds in %d states" % res.distinct
+            elif label == "roleA:dict-order":
+                if res.ok or "Correct" not in (res.violated or ""):
+                    raise Machinery("role-A lemma: evaluating Other in dictionary order must violate Correct, "
+                                    "but TLC reports %s" % res.violated)
+                roleA["dict_order"] = res.violated
+            elif label.startswith("quick"):
+                R.exprs_from_family(label, recs)
+                R.replay_dicts(label, recs)
+            elif label == "d2" or label.startswith("d3"):
                 R.exprs_from_family(label, recs)
             elif label.startswith("dict"):
                 R.take_family(recs)
@@ -411,20 +449,23 @@ def run(ck: Check):
             elif label == "rand":
                 R.exprs_from_random(label, recs)
                 R.replay_dicts(label, recs)
-            timing[label] = {"tlc_s": round(res.wall_s, 1), "cases": len(recs) - 1,
+            timing[label] = {"tlc_s": round(res.wall_s, 1), "cases": max(len(recs) - 1, 0),
                              "replay_s": round(time.time() - t0, 1)}
             del recs, res
         ck.extra["timing"] = timing
+        ck.extra["role_A"] = ("SetExprOtherAlg: subtracting every evaluated key from a running remainder and evaluating "
+                              "Other last satisfies Correct (= SetExpr!Overlap/Assign/ExactlyOnce) for all dictionaries "
+                              "of <= 3 keys over 3 tensors (%s); evaluating Other in dictionary order violates it (%s)"
+                              % (roleA.get("other_last"), roleA.get("dict_order", "lemma run in the thorough tier only")))
     finally:
         R.close()
     if R.n_expr == 0 or R.n_dict == 0:
         raise Machinery("no expression or no dictionary case was replayed")
     if R.max_depth_seen < 4:
         raise Machinery("vacuity: no random tree of depth >= 4 was generated")
-    import accelforge
-    ck.extra["accelforge_path"] = os.path.dirname(accelforge.__file__)
+    ck.extra["accelforge_path"] = R.warm[0].result()
     ck.exhaustive = False
-    ck.extra["exhaustive_parts"] = [j[0] for j in jobs if not j[0].startswith("r")]
+    ck.extra["exhaustive_parts"] = [j[0] for j in jobs if j[0].startswith(("quick", "d2", "d3", "dict"))]
     ck.extra["expression_cases"] = R.n_expr
     ck.extra["dictionary_cases"] = R.n_dict
     ck.extra["max_random_tree_depth"] = R.max_depth_seen
